@@ -304,7 +304,7 @@ func init() {
 	core.Register(&core.Prop{
 		ID:    "C09",
 		Level: "exploration",
-		Rule:  "for every (schema, input) of the delivery corpus: all delivery schedules with at most k deviations from 'one chunk then EOF' (a deviation = a short read of any size, data returned together with io.EOF, or an empty read), byte-at-a-time delivery (also with an empty read before every byte), ALL 2^(n-1) cut sets of tiny inputs, and single/double cuts at every offset of 4-9 KB inputs that cross the 4096-byte bufio/replacing-reader and 128-byte EDI buffers; a case is distinct by (input, schedule); its outcome class is (input, transcript)",
+		Rule:  "for every (schema, input) of the delivery corpus: all delivery schedules with at most k deviations from 'one chunk then EOF' (a deviation = a short read of any size, data returned together with io.EOF, or an empty read), byte-at-a-time delivery (also with an empty read before every byte), ALL 2^(n-1) cut sets of tiny inputs, and single/double cuts at every offset of 4-9 KB inputs that cross the 4096-byte bufio/replacing-reader and 128-byte EDI buffers; a case is distinct by (input, schedule); its outcome class is (input, transcript); inputs ending with empty lines after complete and truncated inputs; dense windows-1252 text in the long-input plan",
 		Assumptions: []string{
 			"the io.Reader obeys the io.Reader contract (never more than len(p) bytes, at most 3 consecutive empty reads)",
 			"schedules beyond the deviation bound are covered only by the byte-at-a-time and all-cut-sets families",
